@@ -269,6 +269,20 @@ func ruleEpilogue(c *Ctx, m *termModel) {
 	} {
 		calls := find(cs.name)
 		key := "Node.run " + cs.name + " before wg.Wait"
+		if len(calls) == 0 && (strings.Contains(cs.name, "nodeHeartbeat") || strings.Contains(cs.name, "nodeStreamRequest")) {
+			// the module's close() written out in the epilogue: close(x.terminate) followed by <-x.done
+			mod := "recv." + strings.TrimSuffix(strings.TrimPrefix(cs.name, "(gomavlib."), ").close")
+			for _, ci := range callsNamed(run, "close") {
+				if ex(ci.Common().Args[0]) != mod+".terminate" {
+					continue
+				}
+				for _, in := range allInstrs(run) {
+					if u, isU := in.(*ssa.UnOp); isU && u.Op == token.ARROW && ex(u.X) == mod+".done" && reachInstr(ci, u) && orderedBefore(u, w) {
+						calls = append(calls, ci)
+					}
+				}
+			}
+		}
 		if len(calls) == 0 {
 			r.Fail(rule, key, c.Pos(w.Pos()), "the node-loop epilogue never closes "+cs.what+" before waiting: its goroutines are never told to stop")
 			continue
@@ -427,20 +441,32 @@ func moduleJoinOK(c *Ctx, m *termModel, run *ssa.Function) (bool, string) {
 			closeFn = fn
 		}
 	}
+	inline := false
 	if closeFn == nil {
-		return false, "no close() method on the module type"
+		// close() written out where it was called: the epilogue of the node loop
+		closeFn, inline = c.FnOpt("root", "Node.run"), true
+		if closeFn == nil {
+			return false, "no close() method on the module type"
+		}
+	}
+	ownerIs := func(v ssa.Value) bool {
+		u, ok := v.(*ssa.UnOp)
+		if !ok {
+			return false
+		}
+		return !inline || "*"+fieldStructName(u.X) == typeStr(recvT)
 	}
 	var termF *types.Var
 	var closeCall, join ssa.Instruction
 	for _, in := range allInstrs(closeFn) {
 		if call, ok := in.(*ssa.Call); ok {
 			if b, ok := call.Call.Value.(*ssa.Builtin); ok && b.Name() == "close" {
-				if f := loadedField(call.Call.Args[0]); f != nil && m.termField[f] {
+				if f := loadedField(call.Call.Args[0]); f != nil && m.termField[f] && ownerIs(call.Call.Args[0]) {
 					termF, closeCall = f, in
 				}
 			}
 		}
-		if u, ok := in.(*ssa.UnOp); ok && u.Op == token.ARROW && loadedField(u.X) == doneF {
+		if u, ok := in.(*ssa.UnOp); ok && u.Op == token.ARROW && loadedField(u.X) == doneF && ownerIs(u.X) {
 			join = in
 		}
 	}
